@@ -1,6 +1,6 @@
 """C08 - strict and lenient validation agree; strict validation has no holes.
 Non-interference premises R1-R5 (DESIGN.md §4 C08) + must-pass-through of every documented check."""
-import re
+import re, os
 from ir import Program, callee_of, callee_generic, has_field, ends_in_field
 from flow import (iter_uses, forward_taint, uses_of_locals, origins, is_local_op, call_matches, must_pass,
                   defs_of, const_val, op_local)
@@ -479,6 +479,41 @@ def must_checks(C, P):
                 'the flag that waives the missing-SHORT-NAME finding is raised for a SHORT-NAME at any position, although only a SHORT-NAME in first position names the element: '
                 '<AR-PACKAGE><CATEGORY/><SHORT-NAME>a</SHORT-NAME> is accepted by strict loading as if it had a name, while the element has no path and is not in the index',
                 where=b.where(raises[0]) if raises else '', sample={'fn': 'parse_element', 'flag_raised_at': len(raises), 'guard': 'element.content.is_empty() (true edge)'})
+
+    # check_version: Ok only behind the test of the item's version mask against the file version (no early Ok for "special" contexts)
+    cv_ = P.find('ArxmlParser::check_version')
+    if cv_ is None:
+        C.anchor_missing('C08-MUST-checks', 'ArxmlParser::check_version')
+    else:
+        tests = []
+        for pos, st in cv_.iter_stmts():
+            if st['k'] == 'assign' and st['rv']['k'] == 'bin' and st['rv']['op'] == 'BitAnd':
+                from flow import deep_sources as _dsv
+                flds = set()
+                for o_ in (st['rv']['a'], st['rv']['b']):
+                    if is_local_op(o_):
+                        flds |= _dsv(cv_, o_, depth=8)[2] | {x[1:] for x in o_.get('p', []) if x.startswith('.')}
+                if any(f.endswith('fileversion') for f in flds):
+                    tests.append(pos)
+        oks_ = ok_exits(cv_) + [pos for pos, t in cv_.iter_calls() if t['dst']['l'] == 0 and not t['dst']['p']]
+        oklit = ok_exits(cv_)
+        C.check(bool(tests) and bool(oklit) and all(must_pass(cv_, (0, 0), [o_], through=set(tests)) for o_ in oklit), 'C08-MUST-checks', 'check_version|ok-only-behind-the-version-test',
+                'check_version can return Ok without having compared the item\'s version mask with the file version (an early Ok for some context): items that do not exist in the file\'s version are accepted there by strict loading',
+                where=cv_.where(oklit[0]) if oklit else '%s:%d' % (cv_.file, cv_.line), sample={'fn': 'check_version', 'ok_exits': len(oklit), 'version_tests': len(tests)})
+    # check_multiplicity polices repeated elements in Sequence AND Choice groups (check_element_conflict returns early for identical
+    # positions, so nothing else looks at a repeated identical alternative)
+    import json as _json
+    try:
+        synf = _json.load(open(os.path.join(P.facts_dir, 'syn.json')))['files']
+    except Exception:
+        synf = {}
+    cmf = [fn_ for k_, v_ in synf.items() if k_.endswith('autosar-data/src/parser.rs') for fn_ in v_['fns'] if fn_['name'] == 'check_multiplicity']
+    if cmf:
+        from c01 import walk as _walk
+        modes = {x['v'].split('::')[-1] for x in _walk(cmf[0]['body']) if isinstance(x, dict) and x.get('k') == 'path' and str(x.get('v', '')).startswith('ContentMode::')}
+        C.check(modes in ({'Sequence', 'Choice'}, {'Bag', 'Mixed'}, {'Sequence', 'Choice', 'Bag', 'Mixed'}, {'Sequence', 'Choice', 'Bag', 'Mixed', 'Characters'}), 'C08-MUST-checks', 'check_multiplicity|applies-to-sequence-and-choice',
+                'check_multiplicity no longer applies to both Sequence and Choice groups (content modes named in it: %s): a repeated single-occurrence alternative of a choice is accepted by strict loading' % sorted(modes),
+                where='autosar-data/src/parser.rs:%s' % cmf[0].get('line', ''), sample={'fn': 'check_multiplicity', 'content_modes': sorted(modes)})
 
     # parse_arxml: Ok dominated by verify_end_of_input, parse_file_header, parse_attribute_text, parse_element
     pa = P.get('ArxmlParser::parse_arxml')
